@@ -1,4 +1,5 @@
 import Proofs.Lifecycle
+import PikoModel.Generated.Facts
 /-!
 # C18 — Losing a node: traffic is withdrawn from it and recovers on the survivors
 
@@ -121,6 +122,17 @@ theorem C18_shutdown_order (id proxy admin : String) (evs0 : List Ev) (n : St)
       rw [this, hpush_pre] at hin; exact hin
     · right; exact heq
 
+/-- **Upstreams are withdrawn before the node stops taking proxy traffic.**  In every shutdown
+schedule, when the proxy server is shut down (stops accepting, drains in-flight requests - which
+may take up to the grace period) the upstream server has already been shut down: its listener
+is closed and every handler's context is cancelled, so the listeners are already being sent
+away to reconnect elsewhere and the endpoint entries are already being withdrawn while the
+proxy still drains; the proxy was still up until then. -/
+theorem C18_upstream_before_proxy (n : St) (reached : List String) (pre post : List Step)
+    (hsched : (pre ++ Step.act .proxyShutdown :: post).filterMap Step.action? = shutdownActions reached) :
+    (n.run pre).srv.cancelled = true ∧ (n.run pre).proxyUp = n.proxyUp :=
+  cancelled_before_proxy reached n pre post hsched
+
 /-- **A notified peer stops routing to the node in the same step.**  A receiver `r` (any
 gossip state) that is not ahead of the marker applies a `LeaveDelta` for node `id ≠` itself:
 the node's view is flagged `left`, set to expire after `nodeExpiry`, and the watcher is told
@@ -173,6 +185,35 @@ theorem C18_left_stops_routing :
     rw [h1 nd hf] at hact; cases hact
   · intro t id ht h e
     exact not_candidate_of_status ht id h e
+
+/-- **The model's phase order is the source's call order** (regenerated on every run by
+`harness/cmd/facts/facts_shutdown.go` from `server/server.go`): the calls `Server.Shutdown`
+makes on its receiver, in source order, are exactly the phases of `shutdownActions`; in
+particular the upstream server is shut down - endpoints start being withdrawn, listeners are
+sent away - **before** the node stops accepting proxy traffic and before `Leave`, and `Leave`
+runs before the gossip sockets are closed.  `upstream.Server.Shutdown` closes the listener
+and then cancels the handlers' context.  A reordering of these calls breaks this theorem. -/
+theorem C18_facts_shutdown_order :
+    Facts.shutdownCalls = some ((shutdownActions []).filterMap Action.callName) ∧
+    (∀ l, Facts.shutdownCalls = some l →
+      callPrecedes "shutdownUpstreamServer" "shutdownProxyServer" l = true ∧
+      callPrecedes "shutdownUpstreamServer" "gossiper.Leave" l = true ∧
+      callPrecedes "shutdownProxyServer" "gossiper.Leave" l = true ∧
+      callPrecedes "gossiper.Leave" "gossiper.Close" l = true ∧
+      callPrecedes "adminServer.SetReady" "shutdownUpstreamServer" l = true) ∧
+    Facts.shutdownUpstreamServerCalls = some ["rebalanceCancel", "upstreamServer.Shutdown"] ∧
+    Facts.upstreamShutdownCalls = some ["httpServer.Shutdown", "cancel"] := by
+  refine ⟨by decide, ?_, by decide, by decide⟩
+  intro l hl
+  have : l = ["stopJWKSRefresher", "adminServer.SetReady", "shutdownUpstreamServer",
+      "shutdownProxyServer", "gossiper.Leave", "gossiper.Close", "shutdownAdminServer", "wg.Wait"] := by
+    have h : Facts.shutdownCalls = some ["stopJWKSRefresher", "adminServer.SetReady",
+      "shutdownUpstreamServer", "shutdownProxyServer", "gossiper.Leave", "gossiper.Close",
+      "shutdownAdminServer", "wg.Wait"] := by decide
+    rw [h] at hl
+    exact (Option.some.inj hl).symm
+  subst this
+  decide
 
 /-- **The race is real in the model too** (as on the code): there is a shutdown schedule in
 which, at the moment `Leave` pushes `LocalDelta` to a peer, the node's own state is flagged
